@@ -28,11 +28,15 @@ def verify(contract, module, qualname, variant=None, timeout_ms=10000):
     except Exception:
         return [{"_notapplicable": fnid, "reason": "VC generation failed: " + traceback.format_exc()[-800:]}]
     seen = {}
+    lost = False
     for name, hyps, goal, line in vcs:
         k = seen.get(name, 0)
         seen[name] = k + 1
         oid = "%s:%s%s" % (fnid, name, "" if k == 0 else "#%d" % k)
-        st, backend, dt, detail = E.discharge(oid, hyps, goal, timeout_ms)
+        # once a proof-support obligation is not discharged the proof of this function is lost whatever the others say: they get one short attempt
+        st, backend, dt, detail = E.discharge(oid, hyps, goal, timeout_ms if not lost else min(timeout_ms, 2000), one_round=lost)
+        if st == FAILED and _is_support(oid):
+            lost = True
         out.append(ob(oid, fnid, st, "V", backend, dt, detail, None, {"line": line}))
     # vacuity: requires + each cover must be satisfiable
     entry = eng.entry
